@@ -357,3 +357,56 @@ Proof.
   split; [vm_compute; reflexivity|]. split; [vm_compute; reflexivity|].
   split; [apply fo_later; apply fo_here|]. vm_compute. reflexivity.
 Qed.
+
+(* REFUTED: the htlc limits of an INTRODUCTION-NODE-ONLY path.  Such a path
+   yields no additional edge at all ([blinded_edges] = []): the search runs to
+   the introduction node over the public graph and nothing carries
+   htlc_minimum / htlc_maximum.  Witness (finding C19-F3): 0 -101-> 1 -102-> 2 =
+   introduction node = recipient, htlc_minimum 1000, amount 999. *)
+Definition w_e12n := mkEdge 102 1 2 false 0 5000000000 true 2000 500 30 0 0 10000000.
+Definition w_p3 := mkBPay 2 [] 1000 100 80 1000 500000.
+Definition w_en80 := mkEnv 0 800000 80 [].
+
+Theorem C19_blinded_intro_only_limits_refuted :
+  bpay_valid w_p3 = true /\
+  blinded_additional 11 [w_p3] = [] /\
+  set_target 11 [w_p3] = 2 /\ set_final_delta [w_p3] = final_delta w_en80 /\
+  let G := blinded_graph [w_e01; w_e12n] 0 11 [w_p3] in
+  exists r,
+    new_route_blinded 11 [w_p3] w_en80 0 999 [w_e01; w_e12n] = Some r /\
+    route_valid G w_en80 w_rs 999 0 2 (unblind 2 r) [50; 90] = true /\
+    receiver_amt r < bp_min w_p3.
+Proof.
+  split; [reflexivity|]. split; [reflexivity|]. split; [reflexivity|]. split; [reflexivity|].
+  cbv zeta. eexists. split; [vm_compute; reflexivity|].
+  split; vm_compute; reflexivity.
+Qed.
+
+(* REFUTED: "the onion payload fits" for the route findPath accepts on its own
+   estimate.  lastHopPayloadSize's blinded branch ([final_hop_est]) leaves out
+   the total_amount_msat record newRoute puts on the final hop
+   ([final_hop_real]).  Witness (finding C19-F4): introduction-node-only path
+   with 1214 bytes of encrypted data, amount 52946097776 at expiry 800080:
+   estimate exactly 1300, processEdge's payload guard passes ([replay] ends
+   with routingInfoSize 1300), the real payload is 1307 and the checker, which
+   is given the real size, rejects the route. *)
+Definition w_e01big := mkEdge 101 0 1 false 0 1125899906842624 true 1000 100 40 0 0 100000000.
+Definition w_p4 := mkBPay 1 [] 1000 100 80 1000 1125899906842624.
+
+Theorem C19_blinded_payload_estimate_refuted :
+  let amt := 52946097776 in
+  let tl := height w_en80 + final_delta w_en80 in
+  let G := blinded_graph [w_e01big] 0 11 [w_p4] in
+  final_hop_est amt tl 1214 true = max_payload /\
+  final_hop_real amt tl 1214 true amt (-1) = 1307 /\
+  (exists n, replay w_en80 w_rs amt 0 1 (final_hop_est amt tl 1214 true)
+                    [zero_inbound w_e01big] [0] = Some n /\ n_size n = max_payload) /\
+  exists r,
+    new_route_blinded 11 [w_p4] w_en80 0 amt [zero_inbound w_e01big] = Some r /\
+    route_valid G w_en80 w_rs amt 0 1 (unblind 1 r) [final_hop_est amt tl 1214 true] = true /\
+    route_valid G w_en80 w_rs amt 0 1 (unblind 1 r) [final_hop_real amt tl 1214 true amt (-1)] = false.
+Proof.
+  cbv zeta. split; [vm_compute; reflexivity|]. split; [vm_compute; reflexivity|].
+  split; [eexists; split; vm_compute; reflexivity|].
+  eexists. split; [vm_compute; reflexivity|]. split; vm_compute; reflexivity.
+Qed.
